@@ -185,7 +185,7 @@ def run_case(c):
         if c['kind'] == 'transform':
             net0 = build(c['net'])
             Zreq = net0.Z(s)
-            call = lambda: net0.transform(c['form'])
+            call = (lambda: net0.transform()) if c.get('omit') else (lambda: net0.transform(c['form']))
         else:
             if c.get('sym'):
                 point = {sym.Symbol(k, positive=True): sym.Rational(v) for k, v in c['sym']['point'].items()}
@@ -199,14 +199,14 @@ def run_case(c):
             mode = c.get('mode', 'impedance')
             if mode == 'impedance':
                 Zreq = impedance(Zs)
-                call = lambda: Zreq.network(c['form'])
+                call = (lambda: Zreq.network()) if c.get('omit') else (lambda: Zreq.network(c['form']))
             elif mode == 'admittance':
                 Y = admittance(1 / Zs)
                 Zreq = impedance(Zs)
-                call = lambda: Y.network(c['form'])
+                call = (lambda: Y.network()) if c.get('omit') else (lambda: Y.network(c['form']))
             else:
                 Zreq = impedance(Zs)
-                call = lambda: syn.network(Zreq, c['form'])
+                call = (lambda: syn.network(Zreq)) if c.get('omit') else (lambda: syn.network(Zreq, c['form']))
     except Exception as e:
         return {'status': 'setup-error', 'errtype': type(e).__name__, 'msg': str(e)[:200]}
     if c['kind'] == 'transform' or c.get('sym'):
@@ -230,7 +230,7 @@ def run_case(c):
         signal.alarm(0)
     out['secs'] = round(time.time() - t0, 2)
     # recorded realiser arguments (foster terms)
-    if c['form'] in ('fosterI', 'fosterII'):
+    if c['form'] in ('fosterI', 'fosterII') or c.get('omit'):
         want = None
         terms = []
         for nm, lx in _recorded:
